@@ -224,7 +224,38 @@ struct Limits : Family {
 					Out o = callLib(plan, [&] { Stream::DynamicMemoryWriter w; art.Write(w); }, &what);
 					if (o == ErrOther) ctx.fail("C20.refuse", "non-std exception");
 					if (o == OkOut) ctx.fail("C20.refuse", "ArtFile::Write of a frame with " + std::to_string(len) + " layers but a recorded 7-bit layer count of " + std::to_string(count) + " succeeded");
+					if ((len + count) % 5 == 0) {
+						// refused every time: the same object once more
+						o = callLib(plan, [&] { Stream::DynamicMemoryWriter w; art.Write(w); }, &what);
+						if (o == OkOut) ctx.fail("C20.refuse", "ArtFile::Write of a frame with " + std::to_string(len) + " layers but a recorded 7-bit layer count of " + std::to_string(count) + " was refused once and succeeded on the second attempt on the same object");
+					}
 					++pairs;
+				}
+			}
+			// the same for objects that come out of ArtFile::Read (a valid file, loaded) and are then edited in place so that totals
+			// stay what they were when loaded: the count changed under an unchanged list, or a layer moved from one frame to another
+			for (size_t len = 0; len <= 24; ++len) {
+				for (unsigned delta = 1; delta <= 3; ++delta) {
+					ArtFile valid{};
+					Animation an{};
+					Animation::Frame f1{}, f2{};
+					f1.layerMetadata.count = static_cast<uint8_t>(len); f1.layers.resize(len);
+					f2.layerMetadata.count = static_cast<uint8_t>(len + delta); f2.layers.resize(len + delta);
+					an.frames.push_back(f1); an.frames.push_back(f2);
+					valid.animations.push_back(an);
+					ArtFile loaded;
+					Out o = callLib(plan, [&] { Stream::DynamicMemoryWriter w; valid.Write(w); auto rd = w.GetReader(); loaded = ArtFile::Read(rd); }, &what);
+					if (o != OkOut) continue; // not the subject here
+					for (int how = 0; how < 2; ++how) {
+						ArtFile edited = loaded;
+						auto& fs = edited.animations[0].frames;
+						if (how == 0) fs[0].layerMetadata.count = static_cast<uint8_t>((len + delta) & 127);
+						else { fs[0].layers.push_back(fs[1].layers.back()); fs[1].layers.pop_back(); }
+						o = callLib(plan, [&] { Stream::DynamicMemoryWriter w; edited.Write(w); }, &what);
+						if (o == ErrOther) ctx.fail("C20.refuse", "non-std exception");
+						if (o == OkOut) ctx.fail("C20.refuse", std::string("ArtFile::Write of a LOADED structure edited in place (") + (how == 0 ? "7-bit count changed under an unchanged layer list" : "one layer moved to another frame") + ", totals as loaded) succeeded although frame 0 has " + std::to_string(fs[0].layers.size()) + " layers and a count of " + std::to_string(fs[0].layerMetadata.count));
+						++pairs;
+					}
 				}
 			}
 			// several inconsistent frames in one file whose differences cancel (file-wide layer total == sum of counts), and layer
